@@ -319,10 +319,13 @@ def fam_content(configs):
   props = [("Color", RED), ("BackgroundColor", BLUE), ("TextAlign", E("TextAlignType", "end")), ("FontSize", L(2, "c")),
            ("FontWeight", E("FontWeightType", "bold")), ("Position", ["pos", L(1, "%"), L(1, "%"), "left", "top"]),
            ("LineHeight", L(125, "%")), ("TextDecoration", ["td", True, None, None])]
-  prod = Product([kinds, range(len(props)), [0, 1, 2, 3], [0, 1], configs])
+  # nobody: 0 = the chain body/div/p/span, 1 = no body at all, 2 = a body without children (which still carries styles and steps)
+  prod = Product([kinds, range(len(props)), [0, 1, 2, 3], [0, 1, 2], configs])
 
   def dec(i):
     k, pi, ns, nobody, c = prod.decode(i)
+    if nobody == 2:
+      k = "body"
     spec = docgen.chain_doc({"p": (F(1), F(3))}, True)
     nodes = {"body": spec["body"], "div": spec["body"]["c"][0], "p": spec["body"]["c"][0]["c"][0], "span": spec["body"]["c"][0]["c"][0]["c"][0]}
     pn, pv = props[pi]
@@ -330,8 +333,10 @@ def fam_content(configs):
     steps = [["Color", None, F(1), RED], ["Color", F(1), F(2), BLUE], ["BackgroundColor", F(2), None, RED]]
     if ns:
       nodes[k]["an"] = copy.deepcopy(steps[:ns])
-    if nobody:
+    if nobody == 1:
       spec["body"] = None
+    elif nobody == 2:
+      spec["body"]["c"] = []
     return {"spec": spec, "config": list(c), "key": f"content#{i}"}
   return Family("F-content", prod.n, dec, check, timeout=30, note="style/animation on every content kind, with and without body")
 
